@@ -757,6 +757,37 @@ func (c *c10Ctx) session(caseID string, rng *rand.Rand) int64 {
 		rej("nts.ProcessResponse", "response to another request with the outstanding unique id appended after the authenticator", func(st *string) c10Res { return client(replay, st) })
 		replay2 := append(append([]byte{}, t.resp...), ext(0x0104, s.reqID)...)
 		rej("nts.ProcessResponse", "response of another session with the outstanding unique id appended after the authenticator", func(st *string) c10Res { return client(replay2, st) })
+		// two mutations that cooperate: fields inserted in front of the authenticator, and the (itself
+		// unauthenticated) length word of the authenticator field increased by their size, so that a
+		// decoder that locates the authenticated part from the packet's end still finds the old prefix
+		insert := func(orig, fields []byte) []byte {
+			pos := 48
+			for pos+4 <= len(orig) {
+				ty := int(orig[pos])<<8 | int(orig[pos+1])
+				l := int(orig[pos+2])<<8 | int(orig[pos+3])
+				if ty == 0x0404 || l < 4 {
+					break
+				}
+				pos += l
+			}
+			if pos+4 > len(orig) {
+				return nil
+			}
+			b := append(append(append([]byte{}, orig[:pos]...), fields...), orig[pos:]...)
+			l := int(orig[pos+2])<<8 | int(orig[pos+3]) + len(fields)
+			b[pos+len(fields)+2], b[pos+len(fields)+3] = byte(l>>8), byte(l)
+			return b
+		}
+		if ins := insert(respOther, ext(0x0104, s.reqID)); ins != nil {
+			rej("nts.ProcessResponse", "response to another request with the outstanding unique id inserted in front of the authenticator and the authenticator's length word raised", func(st *string) c10Res { return client(ins, st) })
+		}
+		var ph []byte
+		for i := 0; i < 3; i++ {
+			ph = append(ph, ext(0x0304, make([]byte, len(s.cookie)))...)
+		}
+		if ins := insert(s.req, ph); ins != nil {
+			rej("nts.ProcessRequest", "request with placeholders inserted in front of the authenticator and the authenticator's length word raised", func(st *string) c10Res { return server(ins, st) })
+		}
 	}
 
 	// an authenticator without room for the 16-byte AES-SIV tag cannot verify anything: forged
